@@ -47,6 +47,16 @@ Proof.
 Qed.
 Print Assumptions C30_depth_bounded.
 
+(* every form of call made by a statement is balanced: after the statement's calls (user-defined callees at any
+   nesting, built-ins, optional-chaining invocations on nil that invoke nothing) the call depth, the continuation
+   and the variables are what they were before; so the depth limit is reached exactly by the calls in progress *)
+Theorem C30_calls_balanced : forall pr lim a c c',
+  eval_aux pr lim a c = inl c' -> depth c' = depth c /\ k c' = k c /\ r c' = r c.
+Proof.
+  intros pr lim a c c' H. destruct (eval_aux_frame pr lim a c c' H) as (A & B & C). auto.
+Qed.
+Print Assumptions C30_calls_balanced.
+
 (* the metering hypothesis is necessary: if loop iterations are not metered, `while true {}` runs forever
    whatever the limits *)
 Theorem C30_unmetered_loop_diverges : forall lim funs n c,
